@@ -14,6 +14,7 @@ import time
 HERE = os.path.dirname(os.path.abspath(__file__))
 sys.path.insert(0, HERE)
 VERIF = os.path.dirname(HERE)
+OUT = os.environ.get("VERIF_OUT_DIR", VERIF)
 
 
 def machinery(msg):
@@ -148,7 +149,7 @@ def finish(prop, tier, seed, t0, results, meta):
         (firsts if v["kind"] not in seen else rest).append(v)
         seen.add(v["kind"])
     unknown = firsts + rest
-    rdir = os.path.join(VERIF, "replays", prop)
+    rdir = os.path.join(OUT, "replays", prop)
     os.makedirs(rdir, exist_ok=True)
     for f in os.listdir(rdir):
         os.remove(os.path.join(rdir, f))
@@ -173,8 +174,8 @@ def finish(prop, tier, seed, t0, results, meta):
     ev = {"property_id": prop, "tier": tier, "seed": seed, "level": "model_checking", "coverage": cov,
           "assumptions": meta.pop("assumptions", []), "wall_s": time.time() - t0, "violations": len(unknown)}
     cov.pop("assumptions", None)
-    os.makedirs(os.path.join(VERIF, "evidence"), exist_ok=True)
-    json.dump(ev, open(os.path.join(VERIF, "evidence", prop + ".json"), "w"), indent=1)
+    os.makedirs(os.path.join(OUT, "evidence"), exist_ok=True)
+    json.dump(ev, open(os.path.join(OUT, "evidence", prop + ".json"), "w"), indent=1)
     print("[%s] tier=%s states=%d transitions=%d requests=%d nontrivial=%d outcomes=%d exhaustive=%s wall=%.1fs" % (
         prop, tier, cov["states"], cov["transitions"], cov["traces_validated_against_impl"], cov["distinct_nontrivial"],
         len(outcomes), cov.get("exhaustive"), time.time() - t0))
